@@ -329,19 +329,23 @@ class BzrUploader:
             self.outf.write(f"Uploading {old_relpath}\n")
         self._up_put_bytes(old_relpath, self.tree.get_file_text(new_relpath), mode)
 
-    def _force_clear(self, relpath):
+    def _force_clear(self, relpath, clear_files=False):
         """Forcefully clear any existing item at the given path.
 
-        Removes whatever exists at the path (file, directory, or symlink)
-        to make way for uploading new content. Ignores errors if nothing
-        exists at the path.
+        Removes whatever exists at the path (directory or symlink, and
+        regular file if clear_files is set) to make way for uploading new
+        content. Ignores errors if nothing exists at the path.
 
         Args:
             relpath: Relative path to clear on the remote.
+            clear_files: Also remove a regular file (which put_bytes would
+                simply overwrite, but which is in the way of a symlink).
         """
         try:
             st = self._up_stat(relpath)
-            if stat.S_ISDIR(st.st_mode):
+            if clear_files and stat.S_ISREG(st.st_mode):
+                self._up_delete(relpath)
+            elif stat.S_ISDIR(st.st_mode):
                 # A simple rmdir may not be enough
                 if not self.quiet:
                     self.outf.write(
@@ -380,7 +384,7 @@ class BzrUploader:
             relpath: Path where the symlink should be created.
             target: Target path that the symlink should point to.
         """
-        self.to_transport.symlink(target, relpath)
+        self.to_transport.symlink(urlutils.escape(target), urlutils.escape(relpath))
 
     def upload_symlink_robustly(self, relpath, target):
         """Upload a symlink, clearing any existing item at the path.
@@ -393,7 +397,7 @@ class BzrUploader:
             relpath: Path where the symlink should be created.
             target: Target path that the symlink should point to.
         """
-        self._force_clear(relpath)
+        self._force_clear(relpath, clear_files=True)
         # Target might not be there at this time; dummy file should be
         # overwritten at some point, possibly by another upload.
         target = osutils.normpath(osutils.pathjoin(osutils.dirname(relpath), target))
@@ -643,7 +647,7 @@ class BzrUploader:
                     self.upload_file(change.path[1], change.path[1])
                 elif change.kind[1] == "symlink":
                     target = self.tree.get_symlink_target(change.path[1])
-                    self.upload_symlink(change.path[1], target)
+                    self.upload_symlink_robustly(change.path[1], target)
                 elif change.kind[1] == "directory":
                     self.make_remote_dir(change.path[1])
                 else:
@@ -661,7 +665,7 @@ class BzrUploader:
                 elif change.kind[1] == "symlink":
                     target = self.tree.get_symlink_target(change.path[1])
                     try:
-                        self.upload_symlink(change.path[1], target)
+                        self.upload_symlink_robustly(change.path[1], target)
                     except transport_errors.TransportNotPossible:
                         if not self.quiet:
                             self.outf.write(
@@ -680,7 +684,7 @@ class BzrUploader:
                     self.upload_file(change.path[1], change.path[1])
                 elif change.kind[1] == "symlink":
                     target = self.tree.get_symlink_target(change.path[1])
-                    self.upload_symlink(change.path[1], target)
+                    self.upload_symlink_robustly(change.path[1], target)
                 else:
                     raise NotImplementedError
 
